@@ -127,6 +127,17 @@ CHECKS = {
             "<=> exit 0 (not a regex over the output), rejects must be located and leave no file.",
             "verdicts follow from the edit class; position sampling capped per rule and schema",
             "DESIGN.md section 3, C08"),
+    "C07": ("exploration",
+            "compiler exit status on the output of real sbeppc runs: every generated header alone and a generated "
+            "touch-everything TU that names every entity through its schema name, over generated schemas incl. a name-"
+            "clash pool",
+            "The oracle is the compilers' verdict (g++ 12, clang++ 14; C++11..23) on what sbeppc really generated for "
+            "corpus, random, clash-pool and special-purpose schemas; the TU is spelled from the schema model, never from "
+            "sbeppc's mangling tables, so reachability under the unmodified name is part of what compiles. This is a "
+            "generated compile test driven by a workload generator rather than an in-process monitor (see DESIGN section 4).",
+            "clash pool = fixed names, entity/member names and their mangled variants (X, X_0, X_entry); identifiers that "
+            "merely coincide with parameters of the generated code (Byte, Cursor, v, ...) are outside the property's clash domain",
+            "DESIGN.md section 3, C07"),
 }
 
 
